@@ -300,7 +300,7 @@ func TestC10(t *testing.T) {
 		kit.Eval()
 		return
 	}
-	kit.SetRapid(kit.N(320, 6000))
+	kit.SetRapid(kit.N(320, 4000))
 	rapid.Check(t, kit.Prop("C10", func(t *rapid.T) {
 		w := genC10World(t)
 		nq := rapid.IntRange(10, 40).Draw(t, "nq")
